@@ -53,16 +53,22 @@ func TestGovcReplay(t *testing.T) {
 			func(ctx context.Context) error { ran.Add(1); return boom },
 			nil,
 		}
-		var inner context.Context
-		fns = append(fns, func(ctx context.Context) error { inner = ctx; ran.Add(1); return nil })
+		// (the call may return before this function has run: publish the context through an atomic)
+		var inner atomic.Pointer[context.Context]
+		fns = append(fns, func(ctx context.Context) error { inner.Store(&ctx); ran.Add(1); return nil })
 		err := CallConcurrently(context.Background(), fns...)
 		if err == nil {
 			verdict = "REPRODUCED CallConcurrently returned nil although two functions returned an error"
 		} else if err != boom {
 			verdict = fmt.Sprintf("REPRODUCED CallConcurrently returned %v, which no function returned", err)
 		}
-		if inner != nil && inner.Err() == nil {
+		if ic := inner.Load(); ic != nil && (*ic).Err() == nil {
 			verdict = "REPRODUCED the context given to the functions is not cancelled after CallConcurrently returned"
+		}
+		var single context.Context
+		_ = CallConcurrently(context.Background(), func(ctx context.Context) error { single = ctx; return nil })
+		if single == nil || single.Err() == nil {
+			verdict = "REPRODUCED the context given to a single function is not cancelled after CallConcurrently returned"
 		}
 		ok := CallConcurrently(context.Background(),
 			func(ctx context.Context) error { return nil }, func(ctx context.Context) error { time.Sleep(time.Microsecond); return nil })
